@@ -451,7 +451,18 @@ fn run_file_case(cx: &mut Ctx, case: &Value, ci: usize) {
         }
     };
     cx.files += 1;
-    let file = dataset(true).with_exact_meta(table.clone());
+    // data set variant chosen by the generator (file size relative to the 132-byte window)
+    let ds = &case["ds"];
+    let data_set = match ds["kind"].as_str().unwrap_or("full") {
+        "none" => InMemDicomObject::new_empty(),
+        "pn" => {
+            let mut o = InMemDicomObject::new_empty();
+            o.put(DataElement::new(Tag(0x0010, 0x0010), VR::PN, PrimitiveValue::from("A".repeat(j_usize(&ds["pn"])))));
+            o
+        }
+        _ => dataset(true),
+    };
+    let file = data_set.with_exact_meta(table.clone());
     let mut bytes = Vec::new();
     if let Err(e) = catch(|| file.write_all(&mut bytes)).map_err(|p| p).and_then(|r| r.map_err(|e| e.to_string())) {
         cx.mismatch("strict", "write_all fails".into(), e, case, json!({}));
@@ -467,6 +478,12 @@ fn run_file_case(cx: &mut Ctx, case: &Value, ci: usize) {
         }
         other => cx.mismatch("strict", "write_to_file fails".into(), format!("{other:?}"), case, json!({})),
     }
+    let bare = case["bare"].as_u64().unwrap_or(0) as usize;
+    if bare > 0 && bytes.len() != 128 + bare {
+        cx.mismatch("aux", "complete file has another length than the model computed".into(),
+            format!("{} bytes without preamble, model {}", bytes.len() - 128, bare), case, json!({}));
+    }
+    let size = case["size"].as_str().unwrap_or("").to_string();
     let shape = j_str(&case["shape"]);
     let entry = j_str(&case["entry"]);
     let option = j_str(&case["option"]);
@@ -521,10 +538,10 @@ fn run_file_case(cx: &mut Ctx, case: &Value, ci: usize) {
             Err(p) => ("fail", format!("panic {p}")),
         };
         let expected = j_str(&case["outcome"]);
-        cx.distinct.insert(format!("file|{}|{shape}|{entry}|{option}|{use_default}", init["tab"]));
+        cx.distinct.insert(format!("file|{}|{}|{shape}|{entry}|{option}|{use_default}", init["tab"], case["ds"]));
         if expected == "same" && observed != "same" {
             let how = if observed == "fail" { "cannot be read" } else { "is read back different" };
-            cx.mismatch("strict", format!("file {shape} preamble, opened by {entry} with ReadPreamble::{option}: {how}"), detail, case, json!({"default_fn": use_default}));
+            cx.mismatch("strict", format!("file {shape} preamble ({size}), opened by {entry} with ReadPreamble::{option}: {how}"), detail, case, json!({"default_fn": use_default, "file_bytes": data.len()}));
         } else if expected == "fail" && observed != "fail" {
             cx.mismatch("aux", format!("file {shape} preamble, opened by {entry} with ReadPreamble::{option}: read ({observed}) where the model expects a failure"), detail, case, json!({}));
         }
